@@ -249,8 +249,44 @@ Outcome run_threads_case(const Case &c) {
   o.nontrivial = c.T >= 2; o.fp = vl::fnv1a(to_text(c)); vl::stats().klass("kind_thr"); G = nullptr;
   return o;
 }
+// many simultaneous read holds (C02: "any number of readers"): H holds are taken (lock and trylock alternating; a thread may hold the
+// read lock several times), a writer must be refused as long as one hold is left and admitted once all are gone.  H walks the
+// powers of two and their neighbours (packed counter fields, sign and width boundaries).
+Outcome run_rwmany_case(const Case &c) {
+  Outcome o;
+  auto fail = [&](const string &k, const string &m) { if (o.verdict.empty()) { o.verdict = m; o.klass = k; } };
+  static const int HS[] = {1, 2, 3, 127, 128, 129, 255, 256, 257, 1023, 1024, 1025, 2047, 2048, 2049, 4095, 4096, 4097, 8191, 8192, 8193, 16383, 16384, 16385};
+  int H = HS[c.noise % (sizeof HS / sizeof HS[0])];
+  PRWLock *rw = p_rwlock_new();
+  auto writer_refused = [&](const string &when) {
+    if (p_rwlock_writer_trylock(rw)) { fail("writer-admitted", "writer trylock returned TRUE " + when); p_rwlock_writer_unlock(rw); return false; }
+    return true;
+  };
+  int held = 0;
+  for (int i = 1; i <= H && o.verdict.empty(); i++) {
+    pboolean ok = (i % 2) ? p_rwlock_reader_lock(rw) : p_rwlock_reader_trylock(rw);
+    if (!ok) { fail("reader-refused", string(i % 2 ? "reader_lock" : "reader_trylock") + " returned FALSE for read hold number " + std::to_string(i) + " although no writer holds or waits for the lock"); break; }
+    held++;
+    if ((i & (i - 1)) == 0 || ((i + 1) & i) == 0 || i == H) writer_refused("while " + std::to_string(held) + " read hold(s) are outstanding");
+  }
+  // release one, then the rest; the writer stays out until the last one is gone
+  while (held > 0 && o.verdict.empty()) {
+    if (!p_rwlock_reader_unlock(rw)) { fail("reader-unlock", "reader_unlock returned FALSE with " + std::to_string(held) + " read hold(s) outstanding"); break; }
+    held--;
+    if (held > 0 && (held == H - 1 || (held & (held - 1)) == 0 || ((held + 1) & held) == 0)) writer_refused("after a reader unlock, while " + std::to_string(held) + " of " + std::to_string(H) + " read hold(s) are still outstanding");
+  }
+  if (o.verdict.empty()) {
+    if (!p_rwlock_writer_trylock(rw)) fail("writer-refused", "writer trylock returned FALSE after all " + std::to_string(H) + " read holds were released (the lock is free)");
+    else { p_rwlock_writer_unlock(rw); if (!p_rwlock_reader_trylock(rw)) fail("reader-refused", "reader trylock on the free lock returned FALSE after the " + std::to_string(H) + "-hold round"); else p_rwlock_reader_unlock(rw); }
+  }
+  if (o.verdict.empty()) p_rwlock_free(rw);   // a lock in a broken state is leaked rather than freed
+  o.nontrivial = H >= 128; o.fp = vl::fnv1a("rwmany " + std::to_string(H));
+  vl::stats().klass("kind_rwmany_h" + std::to_string(H >= 2047 ? 2047 : H >= 127 ? 127 : 1) + "plus");
+  return o;
+}
 Outcome run_case(const Case &c) {
   if (c.kind == "thr") return run_threads_case(c);
+  if (c.kind == "rwmany") return run_rwmany_case(c);
   Outcome o;
   Shared g; G = &g;
   g.c = c;
